@@ -30,6 +30,11 @@ def obligations(tier):
                                   weight=nn * 20, budget_s=900 if tier == "quick" else 7200, max_paths=200000))
                 obs.append(Ob(f"{spec_name(('ind', name, kw))}/tf={tf}/n={nn}", dict(spec=["ind", name, kw], n=nn, tf=tf, part=("rounded" if name == "TSI" else "all")), INV_UF if name == "ADX" else INV,
                               weight=nn * (20 if name in EXTRA else 1), budget_s=900 if tier == "quick" else 7200, max_paths=200000))
+    # the relations for a stream handed over as capitalised dicts / dicts / lists (the candle 'as given' is the reference)
+    for name, kw, w in (("TR", dict(), 1), ("donchian", dict(period=2), 1), ("STOCH", dict(period=2, slow_period=2, smoothing_k=2), 3), ("HLA", dict(), 0), ("BBANDS", dict(period=2), 2), ("OBV", dict(), 0)):
+        for feed in ("Dict", "dict", "list"):
+            n = w + 3
+            obs.append(Ob(f"{spec_name(('ind', name, kw))}/input as {feed}/n={n}", dict(spec=["ind", name, kw], n=n, tf=None, part="all", feed=feed), INV, weight=n * 3, budget_s=300, max_paths=200000))
     # the relations under naming / rounding / candlestick configurations
     for name, kw, w, extra in CONFIG_VARIANTS:
         if "round_value" in extra or name in ("TSI", "VWAP"):
@@ -96,8 +101,21 @@ def run(ctx, P):
             if xv is not None:
                 c.indicators["X"] = xv
         kw = dict(kw, input_value="X")
-    ind = build(name, kw, candles=cs, **common)
-    ind.calculate()
+    if P.get("feed"):
+        # the stream handed over in another accepted encoding: the relations are stated about the candle AS GIVEN
+        enc = {"Dict": lambda c: dict(Open=c.open, High=c.high, Low=c.low, Close=c.close, Volume=c.volume, Timestamp=c.timestamp),
+               "dict": lambda c: dict(open=c.open, high=c.high, low=c.low, close=c.close, volume=c.volume, timestamp=c.timestamp),
+               "list": lambda c: [c.open, c.high, c.low, c.close, c.volume, c.timestamp]}[P["feed"]]
+        ind = build(name, kw, candles=[], **common)
+        ind.append([enc(c) for c in cs[:2]])
+        for c in cs[2:]:
+            ind.append(enc(c))
+        if not P.get("tf"):
+            given = [dict(open=c.open, high=c.high, low=c.low, close=c.close, volume=c.volume) for c in cs]
+            ctx.equal(f"{name}:the candles the relations are stated about are the candles given ({P['feed']} input)", [dict(open=c.open, high=c.high, low=c.low, close=c.close, volume=c.volume) for c in ind.candles], given)
+    else:
+        ind = build(name, kw, candles=cs, **common)
+        ind.calculate()
     out = ind.as_list()
     cd = ind.candles
     ctx.observe("readings", out)
@@ -115,10 +133,11 @@ def run(ctx, P):
             for i, r in enumerate(series):
                 for f, x in (r.items() if isinstance(r, dict) else [(None, r)]):
                     R(f"stored-value-is-rounded[{tag}]", is_rounded(ctx, x, rv), f"candle {i} field {f}: {x!r}")
-        ind.calculate_index(n - 1)
+        m = len(ind.candles)            # (fewer than n on a collapsing timeframe)
+        ind.calculate_index(m - 1)
         ind.calculate_index(-2)
         recheck("calculate_index(last), calculate_index(-2)", ind.as_list())
-        ind.calculate_index(0, n)
+        ind.calculate_index(0, m)
         recheck("calculate_index(0, n)", ind.as_list())
         ind.recalculate()
         recheck("recalculate", ind.as_list())
